@@ -90,14 +90,19 @@ Print Assumptions c15_fields_keep_data.
 
 (* ---- (7) PARTIAL trace theorem: on every history, in every step record that ./check compares with the real
    code (run_case, handles registered by rescan), verdict 0 (names = groups) and verdict 1 (live handles keep type
-   and data) are true.  Missing for the full statement `case_ok c ops = true`: the observation-level forms of
-   verdict 2 (rename effect on handle names), verdict 3 (move) and of the final reopen comparison; their
-   state-level content is theorems (2)-(5) above, the lift to `observe` (completeness of the h5 path search over
-   the two files) is not done. *)
+   and data) are true, and the final reopen verdict of every dataset is true.  Missing for the full statement
+   `case_ok c ops = true`: the observation-level forms of verdict 2 (effect of a rename on the handle statuses) and
+   verdict 3 (move); their state-level content is theorems (3)-(5) above, the lift to `observe_handle`
+   (completeness of the h5 path search over the two files, handle registry closed under rescan) is not done. *)
 Theorem c15_trace_inv_data_partial : forall c ops, fix_a c = true -> fix_b c = true ->
   forall sr, In sr (fst (run_case c ops)) -> nth 0 (sr_flags sr) false = true /\ nth 1 (sr_flags sr) false = true.
 Proof. exact case_inv_data. Qed.
 Print Assumptions c15_trace_inv_data_partial.
+
+Theorem c15_trace_reopen_verdict : forall c ops, fix_a c = true -> fix_b c = true ->
+  forall x, In x (snd (run_case c ops)) -> snd x = true.
+Proof. exact case_reopen_ok. Qed.
+Print Assumptions c15_trace_reopen_verdict.
 
 (* non-vacuity examples: Proofs/CatalogueWitness.v (repaired_rename_ok, repaired_move_ok) *)
 
